@@ -393,6 +393,8 @@ class PollFn(object):
         results = [d.result for d in descriptors]
         w.rec("poll_call", fn=self.name, k=k, results=jsonable(results))
         try:
+            if "vsleep" in extra:
+                vsched.v_sleep(extra["vsleep"])
             for d in descriptors:
                 sub = find_sub(d.result)
                 key = sub[1] if sub else None
@@ -871,7 +873,7 @@ def reset_library_globals():
 
 
 def execute(prog, tape=(), block_tape=(), clock_mode="exact", max_steps=400000, max_vtime=1e4,
-            line_points=True, track_lock_order=False, point_hook=None):
+            line_points=True, track_lock_order=False, point_hook=None, trace_funcs=None):
     """Run a program under a fresh scheduler; returns (scheduler, world)."""
     holder = {}
     reset_library_globals()
@@ -883,7 +885,7 @@ def execute(prog, tape=(), block_tape=(), clock_mode="exact", max_steps=400000, 
 
     s = vsched.run_case([("t0", t0)], tape=tape, block_tape=block_tape, clock_mode=clock_mode,
                         max_steps=max_steps, max_vtime=max_vtime, line_points=line_points,
-                        track_lock_order=track_lock_order, point_hook=point_hook)
+                        track_lock_order=track_lock_order, point_hook=point_hook, trace_funcs=trace_funcs)
     return s, holder.get("w")
 
 
